@@ -1,9 +1,10 @@
 #!/bin/sh
 # tools/all_seeds_parallel.sh [workers=4]: regression of EVERY kept seeded change against its property's quick check, in parallel:
 # each worker gets a private copy of the framework and a private worktree of the repository (tools/mkwork.sh), so /repo and /verif are not touched.
+# SEED_FILTER=<egrep pattern> restricts the run (e.g. SEED_FILTER="C02-|C10-").
 # Output: one line per seed in /tmp/allseeds/result.txt  (<seed> <prop> exit=<rc> violations=<n> no-failing-input=<n>)
 N="${1:-4}"; mkdir -p /tmp/allseeds; rm -f /tmp/allseeds/result.*.txt
-ls -d /verif/seeded/*/ | sort > /tmp/allseeds/list.txt
+ls -d /verif/seeded/*/ | sort | grep -E "${SEED_FILTER:-.}" > /tmp/allseeds/list.txt
 for w in $(seq 1 $N); do
   ( /verif/tools/mkwork.sh as$w >/dev/null 2>&1
     export VERIF_REPO=/tmp/w/as$w/repo VERIF_ROOT=/tmp/w/as$w/verif
